@@ -204,6 +204,22 @@ def run_check(pid, tier, seed, t0):
     trace = st["trace"]
     segs = segments(trace)
     evs, distinct = coverage_from_trace(trace)
+    extra_cov = {}
+    if pid == "C16":
+        import decide
+        ds = decide.run_stage("C16", tier, seed, wd)
+        for rep in ds["res"]["reports"]:
+            if rep.get("kind") == "MISMATCH":
+                rep = dict(rep)
+                rep["decision_record"] = ds["records"][rep["l"] - 1] if 0 < rep.get("l", 0) <= len(ds["records"]) else None
+                rep["l"] = 1
+                st["viol"].append(rep)
+            elif rep.get("kind") in ("TLCERROR", "TOOLERROR", "UNCONSUMED"):
+                st["tool"].append(rep)
+        extra_cov = {"fee_cover_records": len(ds["records"]), "fee_cover_validation": ds["res"]["stats"], "fee_cover_models": ds["model_runs"]}
+        mstats["runs"] += ds["model_runs"]
+        mstats["states"] += sum(x.get("distinct", 0) for x in ds["model_runs"])
+        mstats["transitions"] += sum(x.get("generated", 0) for x in ds["model_runs"])
     rc = 0
     if st["tool"]:
         for rep in st["tool"][:5]:
@@ -234,13 +250,22 @@ def run_check(pid, tier, seed, t0):
         if tags:
             print(f"NOTE: {len(st['other'])} reports that do not bear on {pid} (tags: {', '.join(tags)[:300]})")
     samples = []
+    seen_kinds = {}
     for r in trace:
-        if r.get("ev") in ("q", "hb") and len(samples) < 4:
-            samples.append({k: v for k, v in r.items() if k != "post"} if r.get("ev") == "q" else
-                           {"ev": "hb", "req": r.get("req"), "reply": r.get("reply"), "post_tree": r.get("post", {}).get("tree")})
+        k = (r.get("ev"), r.get("ep"))
+        if r.get("ev") in ("universe", "skip", "tick") or seen_kinds.get(k, 0) >= 1 or len(samples) >= 8:
+            continue
+        seen_kinds[k] = 1
+        d = {kk: vv for kk, vv in r.items() if kk != "post"}
+        if "post" in r:
+            d["post_tree"] = r["post"].get("tree")
+            d["post_stableH"] = r["post"].get("stableH")
+        samples.append(d)
+    if not samples:
+        samples = [{kk: vv for kk, vv in r.items() if kk != "uni"} for r in trace[:2]]
     cov = {
-        "states": max(1, mstats["states"]) if M else max(1, st["res"]["stats"].get("distinct", 1)),
-        "transitions": max(1, mstats["transitions"]) if M else max(1, st["res"]["stats"].get("generated", 1)),
+        "states": max(1, mstats["states"]) if mstats["runs"] else max(1, st["res"]["stats"].get("distinct", 1)),
+        "transitions": max(1, mstats["transitions"]) if mstats["runs"] else max(1, st["res"]["stats"].get("generated", 1)),
         "traces_validated_against_impl": len(segs),
         "samples": samples,
         "evaluations": len(trace),
@@ -254,6 +279,7 @@ def run_check(pid, tier, seed, t0):
         "known_findings_exercised": sorted(printed),
         "exhaustive": False,
     }
+    cov.update(extra_cov)
     if rc == 0 and nviol > 0:
         rc = 1
     write_evidence(pid, tier, seed, "model_checking", cov, time.time() - t0, nviol)
